@@ -45,6 +45,9 @@ func helmCLIChild(seed uint64, n int, tier string, out string, replay string) {
 	cmd.SetOut(w)
 	cmd.SetErr(io.Discard)
 	err = cmd.Execute()
+	if err != nil {
+		fmt.Printf("HELMCLI error: %s\n", strings.ReplaceAll(err.Error(), "\n", " | "))
+	}
 	fmt.Printf("HELMCLI done err=%v\n", err != nil)
 }
 
